@@ -158,7 +158,14 @@ class LGen:
             forced = None
             if siblings and i == 0:
                 al = self.shadow["name"] if (self.shadow is not None and self.p(0.6) and "shadowed" not in self.tags) else None
-                forced = self.derived(d, alias=al or self.fresh("q"))
+                if al and self.p(0.5):
+                    # the silent variant: the derived table also exports a column named like one of the shadowed base table's
+                    o = self.ch(self.tables); oc = self.ch(o["cols"]); sc = self.ch(self.shadow["cols"])
+                    forced = ("(SELECT %s.%s AS %s FROM %s) %s" % (o["name"], oc, sc, (o["schema"] + "." if o["schema"] else "") + o["name"], al),
+                              {"ref": al, "cols": [(sc, frozenset([(o["schema"], o["name"], oc)]))], "base": False, "aliased": True})
+                    self.tags.add("shadowed:same-column")
+                else:
+                    forced = self.derived(d, alias=al or self.fresh("q"))
                 if forced is not None and al: self.tags.add("shadowed")
             elif siblings and i == n_src - 1:
                 forced = self.derived(d, alias=self.fresh("q"), force_with=True)
@@ -437,7 +444,7 @@ def run(ctx):
                        "code (through a CreateTableStatementGetter subclass serving the catalogue from a dict) on the dedicated (catalogue, query) pairs, on one variant per risky "
                        "construct, and on general generated queries over a fixed catalogue (mostly analysis errors); (2) oracle on the implementation: random catalogues (2–5 tables, "
                        "with and without schema, shared and private column names) and queries whose data flow is built together with the text — base tables with and without alias, "
-                       "join chains, derived tables to depth 2, expressions / functions / CASE / CAST / aggregates over qualified and unambiguous unqualified references, `*` and "
+                       "join chains, derived tables to depth 2, WITH tables (at the top, inside derived tables, inside WITH bodies' derived tables, inside predicate sub-queries; used with and without alias), derived tables side by side where a later sibling has its own WITH clause and the earlier sibling's alias is in some cases the name of a catalogue table the query never reads (with and without a same-named column), expressions / functions / CASE / CAST / aggregates over qualified and unambiguous unqualified references, `*` and "
                        "`t.*`, UNION with qualified references, INSERT … SELECT with explicit column list (permuted), with the target's schema, and with an arity mismatch — judged on "
                        "output names, 1-based positions and the exact source set per output column; at most one construct of RISKY=%s per query, failures attributed to it. "
                        "distinct_nontrivial = distinct accepted answers" % RISKY)
